@@ -359,7 +359,7 @@ func genCase(t *rapid.T) (Case, map[string]bool) {
 }
 
 func TestPaint(t *testing.T) {
-	harness.Rapid(t, harness.N(15000, 16*40000), func(t *rapid.T) {
+	harness.Rapid(t, harness.N(15000, 16*240000), func(t *rapid.T) {
 		c, lab := genCase(t)
 		// classify by what the reference VM prescribes
 		var vm spec.VM
